@@ -41,12 +41,12 @@ TRUSTED = [
 # sentence and C10's "delivers all its pages ... and completes it on the last page".
 KINDS = {
     "C09": {"id-mismatch", "id-out-of-bounds", "duplicate-id", "over-capacity", "accepted-after-close", "header-not-reset", "refused-with-request",
-            "refused-but-registered", "conservation", "managed-flag", "panic", "recycling", "harness", "explicit-id-race", "send-blocked", "stalled", "under-capacity"},
+            "refused-but-registered", "conservation", "managed-flag", "panic", "recycling", "harness", "explicit-id-race", "send-blocked", "stalled", "under-capacity", "last-frame-misjudged"},
     "C10": {"misrouted", "unknown-id-result", "delivery-count", "last-not-complete", "early-complete", "delivery-failed", "event-to-request",
-            "wrong-pages", "panic", "harness", "receiver-blocked", "timeout-early", "stalled", "event-lost"},
+            "wrong-pages", "panic", "harness", "receiver-blocked", "timeout-early", "stalled", "event-lost", "last-frame-misjudged"},
     "C16": {"not-done-after-close", "no-error-after-close", "registered-after-close", "done-vs-closed", "err-without-done", "accepted-after-close",
             "panic", "goroutine-leak", "close-hangs", "receiver-blocked", "send-blocked", "worker-crash", "timeout-missing", "timeout-early", "harness",
-            "stalled", "accept-blocked", "state-wrong", "request-stuck"},
+            "stalled", "accept-blocked", "state-wrong", "request-stuck", "handshake-hangs"},
 }
 
 
